@@ -76,7 +76,7 @@ def run(ctx):
     if ok:
         uses = 0
         for nb, nt in fl.calls_to('std::iter::Iterator::next'):
-            io = fl.origins(nt['args'][0])
+            io = fl.origins(nt['args'][0]) | iterated_collection(fl, nb)
             if any(o.kind == 'call' and o.key == 'reconcile::reconcile' for o in io):
                 uses += 1
         ok = uses >= 2
